@@ -478,7 +478,7 @@ impl Harness for C10 {
             }
             v
         } else {
-            vec![(0.1, 1e-2, 0), (100.0, 1e-2, 0), (1.0, 1e-4, 0), (1.0, 1e-4, 2)]
+            vec![(0.1, 1e-2, 0), (100.0, 1e-4, 0), (1.0, 1e-4, 2)]
         };
         // kernels on vector pairs and Gram matrices (cheap, first)
         for len in 1..=3usize {
@@ -512,7 +512,7 @@ impl Harness for C10 {
             let sets: Vec<(f64, f64, usize)> = if t { settings.clone() } else { vec![(1.0, 1e-4, 0)] };
             for (c, tol, enc) in sets {
                 for pre in prefixes(3, 3) {
-                    if !t && pre != vec![0, 1, 2] && pre != vec![1, 0, 1] {
+                    if !t && pre != vec![0, 1, 2] {
                         continue;
                     }
                     jobs.push(Job::new(format!("svc-1d-n4-e2-{}-C{}-tol{}-enc{}-pre{:?}", k, c, tol, enc, pre), json!({"kind": "svc", "n": 4, "dim": 1, "kernel": k, "C": c, "tol": tol, "epoch": 2, "enc": enc, "pre": pre})));
@@ -596,7 +596,7 @@ impl Harness for C10 {
             case_deadline_ms: 20_000,
             floors: vec![("svc_fits", 100_000), ("svc_non_identity_orders", 100_000), ("svc_clipped_at_C", 1000), ("svr_fits", 10_000), ("svr_at_C", 100), ("svr_zero_weight_rows", 100), ("kernel_pairs", 500), ("gram_matrices", 100)],
             bounds: json!({
-                "svc_all_orders": "every x sequence over {0,1,2}^4 x every labelling with both classes x 4 kernels x (C,tol,encoding) settings x ALL (4!)^2 visiting orders (epoch 1); 2-D: every 4-subset of the 3x2 lattice; epoch 2 ((4!)^3 orders) on two sequence families (all in thorough); n=5 with all (5!)^2 orders in thorough",
+                "svc_all_orders": "every x sequence over {0,1,2}^4 x every labelling with both classes x 4 kernels x (C,tol,encoding) settings x ALL (4!)^2 visiting orders (epoch 1); 2-D: every 4-subset of the 3x2 lattice; epoch 2 ((4!)^3 orders) on one sequence family (all in thorough); n=5 with all (5!)^2 orders in thorough",
                 "svc_deviation_bounded": "n=6..8 fixed point sets, epochs 1,2(,4): every schedule with at most 1 (2 thorough) non-identity Fisher-Yates steps",
                 "svr": "every x sequence over {0,1,2}^n, y over {-1,0,2}^n, n<=4 (5 thorough) x eps {0,.1,.5} x C {.1,1,100} x tol {1e-2,1e-3,1e-4} x {linear,rbf,poly}; structured sets up to n=20 (80)",
                 "kernels": "every vector pair of length <=2 over {0,±1,±2} and length 3 over {0,±1} (all in thorough); Gram matrices of every point sequence n<=4",
